@@ -62,10 +62,20 @@ class VComp(TimeComponent):
                                               grid=NoGrid(), units=None, static=i["kind"] == "static_push"))
             else:
                 self.inputs.add(name=i["name"], time=self.time, grid=NoGrid(), units=None, static=i["kind"] == "static")
+        if self.spec.get("relay"):
+            self.create_connector(pull_data=[i["name"] for i in self.spec["inputs"]])
+            return
         self.create_connector()
 
     def _connect(self, start_time):
         pd = {o["name"]: 1.0 for o in self.spec["outputs"] if o["kind"] != "pull"}
+        if self.spec.get("relay"):
+            # a model that computes its initial output from its initial inputs: data travels one hop per connect pass
+            names = [i["name"] for i in self.spec["inputs"]]
+            if not all(self.connector.in_data.get(n) is not None for n in names):
+                pd = {}
+            self.try_connect(start_time, push_data=pd)
+            return
         self.try_connect(start_time, push_data=pd)
 
     def _validate(self):
@@ -101,6 +111,32 @@ def gen_tree(tape, out_kind, inputs_free, depth=0, path_len=0, force_leaf=False)
 
 
 def generate(tape, tier="quick"):
+    if tape.chance(1, 300):
+        # a long series of components, each computing its initial output from its upstream neighbour's: a workable
+        # topology that needs up to two connect passes per component (listed downstream-first); now and then with one
+        # input left unconnected at the far end, which still has to be rejected before anything is exchanged
+        n = tape.weighted([(20, 2), (35, 2), (52, 3), (60, 2), (71, 1)])
+        comps, trees = [], []
+        for ci in range(n):
+            c = {"name": f"v{ci}", "outputs": [], "inputs": [], "relay": True}
+            if ci < n - 1:
+                c["outputs"].append({"name": "o0", "kind": "push"})
+            if ci > 0:
+                c["inputs"].append({"name": "i0", "kind": "pull"})
+                ch = [{"input": [ci, 0]}]
+                if tape.chance(1, 8):
+                    ch = [{"ad": "pass", "children": ch}]
+                trees.append({"src": [ci - 1, 0], "children": ch})
+            comps.append(c)
+        if tape.chance(1, 5):
+            comps[-1]["inputs"].append({"name": "i1", "kind": "pull"})
+        how = tape.draw(3)
+        listing = list(range(n))
+        if how == 0:
+            listing.reverse()
+        elif how == 2:
+            listing = tape.shuffle(listing)
+        return {"engine": "V", "components": comps, "trees": trees, "left_out": [], "listing": listing, "long_series": True}
     n = tape.rng_int(2, 4)
     comps = []
     for ci in range(n):
@@ -259,7 +295,9 @@ def execute(sc):
         any(len(t["children"]) > 1 for t in sc["trees"])
     cls = ",".join(sorted(reasons)) if reasons else ("valid:" + status)
     return {"violations": viol, "digest": digest_of([sc["components"], sc["trees"], sc["left_out"]]),
-            "nontrivial": n_ad[0] >= 1 and (fan or bool(reasons)), "probes": {"post_validation_failure": int(not want_reject and status == "other")},
+            "nontrivial": (n_ad[0] >= 1 and (fan or bool(reasons))) or bool(sc.get("long_series")),
+            "probes": {"post_validation_failure": int(not want_reject and status == "other"),
+                       "long_series_of_relays": int(bool(sc.get("long_series")))},
             "faults": {"F7_listing_permuted": int(sc["listing"] != sorted(sc["listing"]))},
             "sig": cls, "cls": cls, "sim_hours": 0,
             "outcome": {"class": cls, "status": status, "adapters": n_ad[0], "exc": str(exc)[:200] if exc else None}}
